@@ -40,6 +40,7 @@ var ErrParametersValueSizeTooLarge = errors.New("provided parameters exceeded th
 var ErrNegativeParameterValueLen = errors.New("negative parameter length detected")
 var ErrMalformedMessage = errors.New("malformed message detected")
 var ErrMessageTooLarge = errors.New("payload message hit allowed memory boundaries")
+var ErrTxAborted = errors.New("current transaction is aborted, commands ignored until end of transaction block")
 
 func MapPgError(err error) (er bm.ErrorResp) {
 	switch {
